@@ -122,6 +122,29 @@ Theorem C10_items_subset_independent :
     exists before after, cs = before ++ item_cases scope logline istate body run_body init i ++ after.
 Proof. exact items_subset_independent. Qed.
 
+(* A test file that fails before any of its tests runs (it cannot be resolved, lexed or parsed; `t.run`
+   returns the error and `Tester.Run` returns it without a factory): the process exits non-zero, reports no
+   case and counts nothing - whatever the other files of the run contain and wherever the broken one stands. *)
+Theorem C10_broken_file_verdict :
+  forall (scope logline istate body : Type) run_body (init : istate) (fs : list (tfile scope body)),
+    In FBroken fs ->
+    let '(ex, cs, c) := cli_outcome scope logline istate body run_body init fs in
+    ex <> 0 /\ cs = [] /\ c = c0.
+Proof. exact broken_file_verdict. Qed.
+
+(* ... and a run without such a file is the run of all its items in sequence on one counter *)
+Theorem C10_files_are_their_items :
+  forall (scope logline istate body : Type) run_body (init : istate) (fls : list (list (item scope body))) c,
+    run_files scope logline istate body run_body init (map FOk fls) c =
+    run_items scope logline istate body run_body init (concat fls) c.
+Proof. exact run_files_all_ok. Qed.
+
+Theorem C10_broken_file_example :
+  cli_outcome unit unit unit unit bf_body tt [FOk [ISingle bf_test]; FBroken] = (1, [], c0) /\
+  fst (fst (cli_outcome unit unit unit unit bf_body tt [FOk [ISingle bf_test]])) = 0 /\
+  length (snd (fst (cli_outcome unit unit unit unit bf_body tt [FOk [ISingle bf_test]]))) = 1.
+Proof. exact broken_file_example. Qed.
+
 Theorem C10_ungrouped_item :
   forall (scope logline istate body : Type) run_body (init : istate) (t : test scope body),
     item_ok scope logline istate body run_body init (ISingle t) = true /\
@@ -223,3 +246,6 @@ Print Assumptions C10_coverage_independent_instance.
 Print Assumptions C10_helpers_wired.
 Print Assumptions C10_helper_names_distinct.
 Print Assumptions C10_equal_fold_wired_example.
+Print Assumptions C10_broken_file_verdict.
+Print Assumptions C10_files_are_their_items.
+Print Assumptions C10_broken_file_example.
